@@ -61,34 +61,32 @@ theorem conv_inv (g : Grammar) (o : Opts) (I : St → Prop)
     | none => simp [hg] at hc; exact hc.2 ▸ hI
     | some n =>
       simp only [hg] at hc
-      cases hp : pre g o el n p i h s with
-      | ret r0 s0 =>
-        simp only [hp] at hc
-        have := hret _ _ _ _ _ _ _ _ hg hI hp
-        simp only [Option.some.injEq] at hc
-        have e : (annotate o n r0 s0).2 = s' := by rw [hc]
-        exact e ▸ hann n r0 s0 this
-      | pass c h' =>
-        simp only [hp] at hc
-        cases hr : conv g o f c p i h' s with
-        | none => simp [hr] at hc
-        | some rs =>
-          obtain ⟨r1, s1⟩ := rs
-          simp only [hr, Option.some.injEq] at hc
-          have := ih _ _ _ _ _ _ _ hI hr
-          have e : (annotate o n r1 s1).2 = s' := by rw [hc]
-          exact e ▸ hann n r1 s1 this
-      | loop ret s0 =>
-        simp only [hp] at hc
-        have hI0 := hloop _ _ _ _ _ _ _ _ hg hI hp
-        cases hl : loopKids (conv g o f) ret n.kids 0 s0 with
-        | none => simp [hl] at hc
-        | some s1 =>
-          simp only [hl, Option.some.injEq] at hc
-          have hI1 := loopKids_inv I (conv g o f) ret hkw
-            (fun c p i h s r s' a b => ih c p i h s r s' a b) _ _ _ _ hI0 hl
-          have := hpost el n h ret s1 hg hI1
-          have e : (annotate o n (post el n h ret s1).1 (post el n h ret s1).2).2 = s' := by rw [hc]
-          exact e ▸ hann n _ _ this
+      cases hb : convBody g o (conv g o f) el n p i h s with
+      | none => simp [hb] at hc
+      | some rs =>
+        obtain ⟨r1, s1⟩ := rs
+        simp only [hb, Option.some.injEq] at hc
+        have e : (annotate o n r1 s1).2 = s' := by rw [hc]
+        refine e ▸ hann n r1 s1 ?_
+        unfold convBody at hb
+        cases hp : pre g o el n p i h s with
+        | ret r0 s0 =>
+          simp only [hp, Option.some.injEq, Prod.mk.injEq] at hb
+          exact hb.2 ▸ hret _ _ _ _ _ _ _ _ hg hI hp
+        | pass c h' =>
+          simp only [hp] at hb
+          exact ih _ _ _ _ _ _ _ hI hb
+        | loop ret s0 =>
+          simp only [hp] at hb
+          have hI0 := hloop _ _ _ _ _ _ _ _ hg hI hp
+          cases hl : loopKids (conv g o f) ret n.kids 0 s0 with
+          | none => simp [hl] at hb
+          | some s2 =>
+            simp only [hl, Option.some.injEq] at hb
+            have hI1 := loopKids_inv I (conv g o f) ret hkw
+              (fun c p i h s r s' a b => ih c p i h s r s' a b) _ _ _ _ hI0 hl
+            have := hpost el n h ret s2 hg hI1
+            have e2 : (post el n h ret s2).2 = s1 := by rw [hb]
+            exact e2 ▸ this
 
 end PP.Diagram
